@@ -244,6 +244,9 @@ def limbs(n):
     return out
 
 
+DEGENERATE = [0]
+
+
 def one_run(pa, c, d, cfg, samplers, sampler=None):
     """Run compute_gamma under the current executor; returns (GammaResults or None, trace record, exception).
     `sampler`: an already used sampler object to be reused (a fresh one otherwise)."""
@@ -264,6 +267,15 @@ def one_run(pa, c, d, cfg, samplers, sampler=None):
     finally:
         REC[0] = None
     import math
+    # values no fixed-point encoding can carry: with an expected disorder of exactly 0 (every sample aligned at no cost) the ratio
+    # is outside the statement (named deviation, never met so far); otherwise a non-finite result contradicts "gamma <= 1 ... =
+    # 1 - observed/expected" by itself and is reported like an exception of the computation
+    finite = [float(res.observed_disorder), float(res.expected_disorder), float(res.gamma)] + [float(a.disorder) for a in res.chance_alignments]
+    if any(not math.isfinite(v) or abs(v) > 1e5 for v in finite):
+        if float(res.expected_disorder) == 0.0:
+            DEGENERATE[0] += 1
+            return res, None, None
+        return None, None, ValueError(f"non-finite or absurd value in the results: observed={finite[0]} expected={finite[1]} gamma={finite[2]}")
 
     def entry(al):
         cont = al.continuum
@@ -427,6 +439,8 @@ def run_c05(tier, rep, pa):
                 rep.violation("gamma.raises", {"exception": repr(ex), "config": {x: y for x, y in cfg.items() if not x.startswith("_")}})
                 recs.append(None)
                 continue
+            if trace is None:          # degenerate run (expected disorder 0): outside the statement
+                continue
             used_sampler = LAST_SAMPLER[0]
             recs.append(trace)
             metas.append(cfg)
@@ -439,7 +453,7 @@ def run_c05(tier, rep, pa):
                 res2, trace2, ex2 = one_run(pa, c, d, cfg2, samplers, sampler=used_sampler)
                 if ex2 is not None:
                     rep.violation("gamma.raises", {"exception": repr(ex2), "config": {k: v for k, v in cfg2.items() if not k.startswith("_")}})
-                else:
+                elif trace2 is not None:
                     recs.append(trace2)
                     metas.append(cfg2)
                     rep.case(key=json.dumps([cfg2["continuum"], cfg2["mode"], cfg2["sampler"], "reuse", cfg2["gt"]]))
@@ -457,6 +471,7 @@ def run_c05(tier, rep, pa):
                                                      "trace": {x: y for x, y in t.items() if x not in ("draws", "submits", "chance")},
                                                      "chance_head": t["chance"][:8], "n_chance": len(t["chance"]), "n_draws": len(t["draws"])})
     rep.sample({"config": {x: y for x, y in metas[0].items() if not x.startswith("_")}, "trace_head": {x: (y[:4] if isinstance(y, list) else y) for x, y in recs[0].items()}})
+    rep.extra["degenerate_runs_skipped"] = DEGENERATE[0]
     rep.extra["second_batches"] = sum(1 for r in recs if len(r["chance"]) > r["n"])
     rep.extra["runs_by_mode"] = {m: sum(1 for r in recs if r["mode"] == m) for m in ("exact", "soft", "fast")}
     if rep.extra["second_batches"] == 0:
@@ -524,8 +539,9 @@ def run_c06(tier, rep, pa):
                     continue
                 results.append(vec)
                 labels.append(f"real pool workers={workers} (os.cpu_count patched)")
-                recs.append(trace)
-                metas.append(dict(cfg, pool=labels[-1]))
+                if trace is not None:
+                    recs.append(trace)
+                    metas.append(dict(cfg, pool=labels[-1]))
             POOL["workers"] = None
             # repetition in one process
             for rep_i in range(2):
@@ -548,8 +564,9 @@ def run_c06(tier, rep, pa):
                     continue
                 results.append(result_vector(res, d, pa, cfg["combined"]))
                 labels.append(f"schedule {order}")
-                recs.append(trace)
-                metas.append(dict(cfg, pool=labels[-1]))
+                if trace is not None:
+                    recs.append(trace)
+                    metas.append(dict(cfg, pool=labels[-1]))
                 rep.case(key=json.dumps([ci, order]))
             install(pa, "real")
             groups.append({"results": results, "_labels": labels, "_cfg": cfg})
